@@ -586,6 +586,18 @@ def trigF18d (t : Ty) (v : List Item) : Bool :=
 def Leaf.isKindTest : Leaf → Bool
   | .kind _ _ => true | .docElem _ => true | _ => false
 
+/-- the text contains `function(` -/
+def Ty.mentionsFunc : Ty → Bool
+  | .empty => false
+  | .leaf l _ => l == .funcAny
+  | .func _ _ => true
+  | .map _ v _ => v.mentionsFunc
+  | .array m _ => m.mentionsFunc
+
+def Tys.anyMentionsFunc : Tys → Bool
+  | .nil => false
+  | .cons a as => a.mentionsFunc || as.anyMentionsFunc
+
 mutual
 /-- trigger of F18p: sequence types that the 3.1 *parser* rejects (XPST0003) or records with a corrupted
 `source`, found by enumeration (see docs/C18.md).  `member` = the type is the member type of an array
@@ -601,7 +613,10 @@ def Ty.gapAt (member arr infunc : Bool) : Ty → Bool
      | _ => false)
     || (member && o == .opt && (l.isKindTest || l == .funcAny || l == .mapAny))
     || (l == .funcAny && o != .one && (member || infunc))
-  | .func a r => a.gapAll || r.gapAt false false true
+  | .func a r =>
+    -- is_sequence_type (l.230-239) validates a nested typed function test only if `function(` occurs in its
+    -- last argument (or in a leading `function(*)` alone)
+    (infunc && a.anyMentionsFunc) || a.gapAll || r.gapAt false false true
   | .map _ v o => (member && o == .opt) || v.gapAt true false infunc
   | .array m _ => m.gapAt true true infunc
 def Tys.gapAll : Tys → Bool
